@@ -85,6 +85,16 @@ def trace_level():
     tgt["outside"] = True
     r = rejected(ctx, "Trace_Targets", "Trace_Targets.cfg", bad)
     expect("Targets: a write through a dangling link is rejected", any(x["clause"].startswith("C15.") for x in r))
+    import lintfileargs
+    before = len(ctx.rejects)
+    lf = lintfileargs.stage(ctx, ("C13.", "crash"), tid0=1)
+    expect("LintFileArgs: the 42 cells (x 2 second arguments) are accepted", len(ctx.rejects) == before, f"{len(lf['events'])} runs")
+    del ctx.rejects[before:]
+    bad = copy.deepcopy(lf["events"])
+    tgt = next(e for e in bad if e["c"]["what"] == "link-to-covered-bad")
+    tgt["target"] = True
+    r = rejected(ctx, "Trace_LintFileArgs", "Trace_LintFileArgs.cfg", bad)
+    expect("LintFileArgs: a reported link target is rejected", any(x["clause"].startswith("C13.") for x in r))
     # --- repository-test traces (C15 footprint, C16 exit discipline, C05 matches)
     sev = suitetrace.collect(ctx)
     c15 = suitetrace.for_c15(sev, 1)
